@@ -23,6 +23,7 @@ RULE = (
     "every job without a result row is reported missing; non-trivial = at the cancel instant >= 1 job was still "
     "unsubmitted and >= 1 batch was queued or running; distinct by hash of the case"
 )
+RULE += " Later additions (DESIGN.md 9): " + 'up to 2 unusual-SLURM-state windows before the cancel; a cancel-jobs that exits 0 must leave the submission canceled or complete.'
 ASSUMPTIONS = C.WORLD_ASSUMPTIONS + [
     "scancel removes a PENDING batch and kills a RUNNING one (its node process and job processes die at once)",
 ]
